@@ -1,8 +1,9 @@
 use crate::bdd::iterators::{ImageIterator, SupportIterator};
+use crate::bdd::utils::prune_bdd_variables;
 use crate::bdd::Bdd;
 use crate::iterators::DomainIterator;
 use crate::traits::{BooleanFunction, BooleanPoint, BooleanValuation};
-use biodivine_lib_bdd::BddVariable;
+use biodivine_lib_bdd::{BddVariable, BddVariableSet};
 use num_bigint::BigUint;
 use std::collections::{BTreeMap, BTreeSet};
 use std::fmt::Debug;
@@ -78,15 +79,44 @@ impl<T: Debug + Clone + Ord> BooleanFunction<T> for Bdd<T> {
         }
 
         let mut extended_mapping = mapping.clone();
-        let (mut self_lifted, _common_inputs) = self.union_and_extend_n_ary(&mut extended_mapping);
+        let (mut self_lifted, common_inputs) = self.union_and_extend_n_ary(&mut extended_mapping);
 
-        for (k, v) in extended_mapping.iter() {
-            self_lifted.bdd = self_lifted
-                .bdd
-                .substitute(self_lifted.map_var_outer_to_inner(k).unwrap(), &v.bdd)
+        // The substitution is simultaneous: every substituted variable is first moved to a fresh
+        // proxy variable (placed after all common inputs), and only then are the proxies replaced
+        // by the substituted functions, none of which mentions a proxy. Keys that are not inputs
+        // of this function have nothing to replace.
+        let substituted = extended_mapping
+            .iter()
+            .filter_map(|(k, v)| self_lifted.map_var_outer_to_inner(k).map(|var| (var, v)))
+            .collect::<Vec<_>>();
+        let input_count = common_inputs.len();
+        let total_count = u16::try_from(input_count + substituted.len())
+            .expect("Too many variables to substitute");
+        let proxy_set = BddVariableSet::new_anonymous(total_count);
+        let proxy = |index: usize| BddVariable::from_index(input_count + index);
+
+        let mut result = self_lifted.bdd.clone();
+        unsafe { result.set_num_vars(total_count) };
+        for (index, (var, _)) in substituted.iter().enumerate() {
+            result = result.substitute(*var, &proxy_set.mk_var(proxy(index)));
         }
+        for (index, (_, value)) in substituted.iter().enumerate() {
+            let mut value_bdd = value.bdd.clone();
+            unsafe { value_bdd.set_num_vars(total_count) };
+            result = result.substitute(proxy(index), &value_bdd);
+        }
+        unsafe { result.set_num_vars(u16::try_from(input_count).unwrap()) };
+        self_lifted.bdd = result;
 
-        self_lifted.restrict_and_prune_map(&extended_mapping, &self_lifted)
+        // A substituted variable stays an input only if some substituted function mentions it.
+        let retained_inputs = common_inputs
+            .iter()
+            .filter(|input| {
+                !mapping.contains_key(input) || mapping.values().any(|v| v.inputs.contains(input))
+            })
+            .cloned()
+            .collect::<Vec<_>>();
+        prune_bdd_variables(&self_lifted, &retained_inputs)
     }
 
     fn sat_point(&self) -> Option<BooleanPoint> {
